@@ -11,7 +11,7 @@ Reading of the source that is particular to this class (everything else is gener
   self.execute()                               -> the model's nested execute (a parameter of the generated function)
   in AutonomousStateMachine: self.__engaged is the latch auto_on, self._StateMachine__should_engage is should,
   self.is_executing is engaged.
-execute() itself is NOT translated: it stays tied by the trace correspondence only."""
+execute() itself is translated by harness/exec_translate.py (statement by statement, SM/SrcExec*.v)."""
 import ast
 
 from .pytr import Spec, Shape, HEADER, paren, txt
